@@ -35,7 +35,9 @@ SENTENCES = tuple(GR.sentence_texts())
 DOCS = tuple((e, t) for e, t in SEEDS if e.startswith("document")) + tuple(("document_ts_fragvars", s) for s in C18_SOURCES) + \
     tuple(("document", t) for t, _ in G.TEMPLATES[:20]) + tuple(("document_ts_fragvars", s) for s in EXTRA) + \
     tuple((e if e in ("value", "type") else "document_ts_fragvars", t) for e, t in SENTENCES) + \
-    tuple(("document", t) for t, _ in G.TEMPLATES[20:])          # append-only: recorded witnesses index into DOCS
+    (("document_ts_fragvars", '{ a: a b: b(x: 1) { c: c @d ... on T { d: d } } } fragment F on T { e: e }'),) + \
+    tuple(("document", t) for t, _ in G.TEMPLATES[20:])
+# (append-only: recorded witnesses index into DOCS; the entry before the last block repeats the field name as alias: still an alias)
 
 
 def strip_loc(d):
